@@ -269,6 +269,24 @@ func (f *fexpr) body() any {
 	return map[string]any{"$" + f.Op: map[string]any{f.Key: f.Value}}
 }
 
+// weight approximates the size of the filter's text; cases whose filter is heavier than coqFilterLimit are judged by
+// the oracle only (a 10 000-character string or a 300-clause set costs coqc tens of seconds per shard)
+const coqFilterLimit = 2500
+
+func (f *fexpr) weight() int {
+	if f == nil {
+		return 0
+	}
+	n := 20 + len(f.Key)
+	if s, ok := f.Value.(string); ok {
+		n += len(s)
+	}
+	for _, it := range f.Items {
+		n += it.weight()
+	}
+	return n
+}
+
 func (f *fexpr) size() int {
 	if f == nil {
 		return 0
